@@ -6,6 +6,7 @@ import (
 
 	"github.com/kercylan98/vivid"
 	"github.com/kercylan98/vivid/internal/mailbox"
+	"github.com/kercylan98/vivid/internal/verifhook"
 	"github.com/kercylan98/vivid/pkg/log"
 	"github.com/kercylan98/vivid/pkg/ves"
 )
@@ -105,16 +106,20 @@ func (h *killedHandler) cleanupIfNotRestarting() {
 		h.ctx.tell(true, watcher, h.selfKilledMessage)
 	}
 
+	verifhook.Yield("kh.watchers.told", h.ctx)
+
 	// 通知父节点
 	if h.ctx.parent != nil {
 		h.ctx.tell(true, h.ctx.parent, h.selfKilledMessage)
 	}
+	verifhook.Yield("kh.parent.told", h.ctx)
 
 	// 通知事件流
 	h.ctx.EventStream().Publish(h.ctx, ves.ActorKilledEvent{
 		ActorRef: h.ctx.ref,
 		Type:     reflect.TypeOf(h.ctx.actor),
 	})
+	verifhook.Yield("kh.event.published", h.ctx)
 
 	// 失败后被（非优雅）停止的 Actor 邮箱仍处于暂停状态，恢复邮箱以便排在其后的普通消息被排空并进入死信，而不是永久滞留
 	h.ctx.mailbox.Resume()
